@@ -781,6 +781,174 @@ def normalise_gathers(fn) -> int:
     return int(ast.dump(fn.node) != src0)
 
 
+# positional signatures (name, default source text or None = required) of the library functions the rules look at
+LIB_SIGNATURES = {
+    'np.reshape': [('a', None), ('newshape', None), ('order', "'C'")],
+    'np.zeros': [('shape', None), ('dtype', 'float'), ('order', "'C'")],
+    'np.ones': [('shape', None), ('dtype', None), ('order', "'C'")],
+    'np.empty': [('shape', None), ('dtype', 'float'), ('order', "'C'")],
+    'np.arange': None,                                   # start/stop overloads: keywords are left alone
+    'np.eye': [('N', None), ('M', 'None'), ('k', '0'), ('dtype', 'float')],
+    'np.sum': [('a', None), ('axis', 'None')],
+    'np.mean': [('a', None), ('axis', 'None')],
+    'np.argsort': [('a', None), ('axis', '-1')],
+    'np.tile': [('A', None), ('reps', None)],
+    'np.repeat': [('a', None), ('repeats', None), ('axis', 'None')],
+    'np.linalg.norm': [('x', None), ('ord', 'None'), ('axis', 'None')],
+    'np.linalg.svd': [('a', None), ('full_matrices', 'True'), ('compute_uv', 'True')],
+    'np.linalg.qr': [('a', None), ('mode', "'reduced'")],
+    'np.linalg.pinv': [('a', None), ('rcond', None), ('hermitian', 'False')],
+    'np.linalg.inv': [('a', None)],
+    'np.fft.fft': [('a', None), ('n', 'None'), ('axis', '-1'), ('norm', 'None')],
+    'np.fft.ifft': [('a', None), ('n', 'None'), ('axis', '-1'), ('norm', 'None')],
+    'np.dot': [('a', None), ('b', None)],
+    'np.broadcast_arrays': None,
+    'open': [('file', None), ('mode', "'r'")],
+    'os.replace': [('src', None), ('dst', None)],
+    'os.rename': [('src', None), ('dst', None)],
+    'pickle.dump': [('obj', None), ('file', None), ('protocol', None)],
+    'json.dump': [('obj', None), ('fp', None)],
+}
+DROPPABLE_KW = {'np.broadcast_arrays': {'subok': 'False'}, 'pickle.dump': {'fix_imports': 'True'}, 'np.empty': {}, 'np.linalg.svd': {'hermitian': 'False'},
+                'json.dumps': {'ensure_ascii': 'True', 'allow_nan': 'True'}}
+METHOD_SIGNATURES = {'flatten': [('order', "'C'")], 'ravel': [('order', "'C'")], 'sum': [('axis', 'None')], 'reshape': None}
+
+
+def normalise_calls(model, fn) -> int:
+    """Call style, in place: (1) a call of a name bound (at module level or in the function) to `functools.partial(f, fixed...)` is
+    replaced by the call of f with the fixed arguments; (2) keyword arguments of a call whose callee is a function of the
+    repository (resolved) or a library function of the signature table are moved to their positional slots; (3) trailing
+    arguments that only repeat the callee's default are dropped.  The result is the spelling the code used before
+    "keyword arguments / explicit defaults" clean-ups, so that rules see one form."""
+    from .model import norm
+    from .astutil import single_locals
+    src0 = ast.dump(fn.node)
+    # ---- (1) functools.partial aliases
+    partials = {}
+    for n in fn.module.tree.body:
+        if isinstance(n, ast.Assign) and len(n.targets) == 1 and isinstance(n.targets[0], ast.Name) and isinstance(n.value, ast.Call) \
+                and norm(n.value.func) in ('functools.partial', 'partial') and n.value.args:
+            partials[n.targets[0].id] = n.value
+    for k, v in single_locals(fn).items():
+        if isinstance(v, ast.Call) and norm(v.func) in ('functools.partial', 'partial') and v.args:
+            partials[k] = v
+    # a small local closure / lambda that only forwards to one call with fixed keyword arguments is left to the helper splicing
+
+    class P(ast.NodeTransformer):
+        def visit_Call(self, c):
+            self.generic_visit(c)
+            if isinstance(c.func, ast.Name) and c.func.id in partials:
+                pc = partials[c.func.id]
+                new = ast.Call(func=copy.deepcopy(pc.args[0]), args=[copy.deepcopy(a) for a in pc.args[1:]] + c.args,
+                               keywords=[copy.deepcopy(k) for k in pc.keywords if k.arg not in {x.arg for x in c.keywords}] + c.keywords)
+                return ast.copy_location(new, c)
+            return c
+
+        def visit_Assign(self, a):
+            if len(a.targets) == 1 and isinstance(a.targets[0], ast.Name) and a.targets[0].id in partials and a.value is partials[a.targets[0].id]:
+                return ast.copy_location(ast.Pass(), a)
+            self.generic_visit(a)
+            return a
+    if partials:
+        P().visit(fn.node)
+
+    # ---- (2) + (3)
+    def signature_of(c: ast.Call):
+        f = norm(c.func)
+        if f in LIB_SIGNATURES:
+            return LIB_SIGNATURES[f], f
+        if f.startswith('numpy.') and 'np.' + f[6:] in LIB_SIGNATURES:
+            return LIB_SIGNATURES['np.' + f[6:]], 'np.' + f[6:]
+        g = None
+        try:
+            g = model.resolve_call(fn, c)
+        except Exception:
+            g = None
+        if g is None and isinstance(c.func, ast.Name):
+            try:
+                g = model.resolve_function(fn.module, c.func)
+            except Exception:
+                g = None
+        if g is None and isinstance(c.func, ast.Attribute):
+            # a method name defined exactly once in the package with that name, or by every definition with the same signature
+            idx = model.__dict__.get('_fn_by_name')
+            if idx is None:
+                idx = {}
+                for h in model.all_functions():
+                    if h.kind != 'nested':
+                        idx.setdefault(h.name, []).append(h)
+                model.__dict__['_fn_by_name'] = idx
+            cands = idx.get(c.func.attr, [])
+            sigs = {tuple(x.arg for x in h.node.args.posonlyargs + h.node.args.args) for h in cands}
+            if cands and len(sigs) == 1 and not any(h.node.args.vararg or h.node.args.kwarg for h in cands) \
+                    and len({ast.dump(ast.Tuple(elts=list(h.node.args.defaults), ctx=ast.Load())) for h in cands}) == 1:
+                g = cands[0]
+        if g is None:
+            if isinstance(c.func, ast.Attribute) and c.func.attr in METHOD_SIGNATURES and norm(c.func.value) not in ('np', 'numpy'):
+                return METHOD_SIGNATURES[c.func.attr], '.' + c.func.attr
+            return None, f
+        a = g.node.args
+        if a.vararg is not None:
+            return None, f
+        names = [x.arg for x in a.posonlyargs + a.args]
+        defaults = [None] * (len(names) - len(a.defaults)) + [norm(d) for d in a.defaults]
+        sig = list(zip(names, defaults))
+        bound = g.kind in ('method', 'getter', 'setter', 'classmethod') and not (isinstance(c.func, ast.Attribute) and isinstance(c.func.value, ast.Name)
+                                                                                  and c.func.value.id in model.classes and g.kind == 'method')
+        if bound and sig and sig[0][0] in ('self', 'cls'):
+            sig = sig[1:]
+        if g.kind == 'static' and False:
+            pass
+        return sig, g.qualname
+
+    changed = 0
+    for c in ast.walk(fn.node):
+        if not isinstance(c, ast.Call) or any(isinstance(x, ast.Starred) for x in c.args) or any(k.arg is None for k in c.keywords):
+            continue
+        sig, name = signature_of(c)
+        drop = DROPPABLE_KW.get(name, {})
+        if drop:
+            c.keywords = [k for k in c.keywords if not (k.arg in drop and norm(k.value) == drop[k.arg])]
+        if not sig:
+            continue
+        names = [n for n, _ in sig]
+        if len(c.args) > len(names) or any(k.arg not in names for k in c.keywords):
+            continue
+        kw = {k.arg: k.value for k in c.keywords}
+        if any(n in kw for n in names[:len(c.args)]):
+            continue
+        new_args = list(c.args)
+        ok = True
+        for n, d in sig[len(c.args):]:
+            if n in kw:
+                new_args.append(kw.pop(n))
+            elif kw:
+                # a gap: fill with the default when it is known, else keep the remaining keywords
+                if d is None:
+                    ok = False
+                    break
+                new_args.append(ast.parse(d, mode='eval').body)
+            else:
+                break
+        if not ok or kw:
+            continue
+        # drop trailing arguments that repeat the default
+        while new_args and len(new_args) > 0:
+            n, d = sig[len(new_args) - 1]
+            if d is not None and norm(new_args[-1]).replace('"', "'") == d:
+                new_args.pop()
+            else:
+                break
+        if [ast.dump(x) for x in new_args] != [ast.dump(x) for x in c.args] or c.keywords:
+            c.args = new_args
+            c.keywords = []
+            changed += 1
+    if ast.dump(fn.node) != src0:
+        ast.fix_missing_locations(fn.node)
+        return 1
+    return 0
+
+
 def normalise_ifexp(fn) -> int:
     """`x = A if c else B`  ->  `if c: x = A  else: x = B`  (also for `return`, augmented and annotated assignments), in
     place: the path rules follow `if` statements, a conditional expression at the top of a statement is the same branch."""
@@ -1105,6 +1273,9 @@ def flatten_model(model) -> Optional[Flattener]:
     fl.gathers = 0
     for f in funcs:
         fl.gathers += normalise_gathers(f)
+    fl.calls = 0
+    for f in funcs:
+        fl.calls += normalise_calls(model, f)
     fl.dispatch = 0
     for f in funcs:
         fl.dispatch += normalise_dispatch(f)
